@@ -1,7 +1,7 @@
 #!/usr/bin/env python3
 import os
 HERE = os.path.dirname(os.path.abspath(__file__))
-VARS = ["ForcedAwaitsWorkers", "GracefulSkipsAwait", "CompleteBeforeJoin", "TermIsForced", "SecondStopHangs", "AwaitsLastWorkerOnly", "WakeAcceptFirst"]
+VARS = ["ForcedAwaitsWorkers", "GracefulSkipsAwait", "CompleteBeforeJoin", "TermIsForced", "SecondStopHangs", "AwaitsLastWorkerOnly", "WakeAcceptFirst", "MidPollIgnoresStop"]
 INVS = "C06_GracefulWaits C06_GracefulLetsFinish C06_NoDispatchAfterCompletion C06_SignalKinds"
 
 
@@ -31,6 +31,7 @@ cfg("NEG_stop_TermIsForced", 1, 1, 1, 2, flip=["TermIsForced"])
 cfg("NEG_stop_SecondStopHangs", 1, 1, 2, 2, flip=["SecondStopHangs"], spec="FairSpec", props="C06_AlwaysCompletes", invs="")
 cfg("NEG_stop_AwaitsLastWorkerOnly", 2, 1, 1, 2, flip=["AwaitsLastWorkerOnly"])
 cfg("NEG_stop_WakeAcceptFirst", 1, 1, 1, 2, flip=["WakeAcceptFirst"])   # defect F8 (as found): the accept thread exits first
+cfg("NEG_stop_MidPollIgnoresStop", 1, 1, 1, 2, flip=["MidPollIgnoresStop"], blocks=1)   # defect F9 (as found): the closed queue ends a worker in mid-poll
 cfg("MC_stop_busy", 2, 1, 1, 2, blocks=1)
 cfg("LIVE_stop_busy", 1, 1, 1, 2, spec="FairSpec", props="C06_AlwaysCompletes", invs="", blocks=1)
 cfg("NEG_stop_ForcedReachBusy", 1, 1, 1, 2, invs="NEG_ForcedNeverCompletesWithBusy", props="", blocks=1)                # must be violated (reachability)
